@@ -167,7 +167,7 @@ def shard(ctx: runner.Ctx) -> None:
 def _shard(ctx: runner.Ctx) -> None:
     from hypothesis import strategies as st
 
-    n_pairs = ctx.n(110_000, 6_000_000)
+    n_pairs = ctx.n(110_000, 16_000_000)
     n = max(1, n_pairs // 28)
     strategy = st.one_of(*[regen.cases(o) for o in (OPTS[0], OPTS[1], OPTS[2], OPTS[2], OPTS[3])])
 
@@ -209,6 +209,9 @@ def _shard(ctx: runner.Ctx) -> None:
             ctx.fail(b, {"P": regen.enc(P), "strings": [regen.enc(s)]}, m)
 
     runner.hyp_run(strategy, one, n, ctx.seed)
+    import time
+
+    ctx.notes["cpu_s_exploration"] = round(time.process_time(), 1)
 
     if ctx.shard == 0:
         for P, strings in CORNERS:
